@@ -22,7 +22,9 @@ Proof.
   rewrite E1. cbn [negb andb].
   assert (E2 : CX.seq [d] (lit " ") = false).
   { unfold CX.seq, D3.seq. destruct (list_eq_dec ascii_dec [d] (lit " ")) as [E|]; [inversion E; congruence|reflexivity]. }
-  rewrite E2. cbv zeta. rewrite (mapM_total (fun e => XS (trim_set (strip f) e))). cbn [option_map]. unfold L10.decode_list, trim_set. now rewrite map_map.
+  rewrite E2. cbv zeta. unfold L10.decode_list, trim_set.
+  destruct (L10.trim (in_set (strip f)) t) as [|c0 t0]; [reflexivity|].
+  rewrite (mapM_total (fun e => XS (L10.trim (in_set (strip f)) e))). cbn [option_map]. now rewrite map_map.
 Qed.
 Print Assumptions CX_slice_of_strings.
 
